@@ -53,14 +53,17 @@ pub fn gen_case_named(seed: u64, idx: usize, kinds: &[SectionKind], mode: usize,
 /// `wide_first`: the first section has line numbers of 5-7 digits, the others small ones.
 pub fn gen_case_full(seed: u64, idx: usize, kinds: &[SectionKind], mode: usize, names: &[&str], wide_first: bool) -> Case {
     let mut rng = Rng::new(mix(seed, &[tag("C10"), tag("concat"), idx as u64]));
-    let gp = GenParams { flavor: gen::Flavor::Git, sections: vec![], max_hunks: rng.range(1, 3), pivot: *rng.pick(&[1usize, 2, 3]), max_run: 6, with_commit_preamble: false, multibyte: rng.chance(1, 4), no_newline_marker: rng.chance(1, 2), similar_pairs: rng.chance(1, 2), no_index_lines: rng.chance(1, 4), no_prefix: rng.chance(1, 6), line_number_class: 0, long_line_pct: *rng.pick(&[0u8, 0, 8, 50]) };
+    // one case in six is plain `diff -u` output (every kind is then a modified-like section)
+    let flavor = if names.is_empty() && !wide_first && rng.chance(1, 6) { gen::Flavor::DiffU } else { gen::Flavor::Git };
+    let gp = GenParams { flavor, sections: vec![], max_hunks: rng.range(1, 3), pivot: *rng.pick(&[1usize, 2, 3]), max_run: 6, with_commit_preamble: false, multibyte: rng.chance(1, 4), no_newline_marker: rng.chance(1, 2), similar_pairs: rng.chance(1, 2), no_index_lines: rng.chance(1, 4), no_prefix: rng.chance(1, 6), line_number_class: 0, long_line_pct: *rng.pick(&[0u8, 0, 8, 50]) };
     let mut sections = Vec::new();
     let mut tok = 0;
     // one time in three all sections are about the same path (`git log -p -- path`, a file added in
     // one commit and changed in the next, ...)
     let shared: Option<String> = if rng.chance(1, 3) { Some(format!("{}shared_{}.{}", rng.pick(&["", "src/", "a/b/"]), rng.below(100), rng.pick(&["rs", "png", "txt", "sh"]))) } else { None };
     // one case in five is a `git log -p` stream: every file diff is preceded by a commit header
-    let log_stream = rng.chance(1, 5);
+    // (never for plain `diff -u` output: no tool produces commit headers followed by such sections)
+    let log_stream = rng.chance(1, 5) && flavor != gen::Flavor::DiffU;
     let with_stat = log_stream && rng.chance(1, 3);
     for (i, k) in kinds.iter().enumerate() {
         let forced = if names.is_empty() { shared.clone() } else { Some(names[i % names.len()].to_string()) };
@@ -71,6 +74,13 @@ pub fn gen_case_full(seed: u64, idx: usize, kinds: &[SectionKind], mode: usize, 
         let s = if log_stream { gen::generate_commit_unit(&mut rng, &gp, *k, i, tok, forced, with_stat) } else { gen::generate_section_named(&mut rng, &gp, *k, i, tok, forced) };
         tok += s.iter().filter(|l| l.token.is_some()).count();
         sections.push(s);
+    }
+    // one case in four arrives the way git sends it to a pager: coloured
+    if rng.chance(1, 4) {
+        let mut crng = Rng::new(mix(seed, &[tag("C10"), tag("colors"), idx as u64]));
+        for s in sections.iter_mut() {
+            let _ = gen::add_git_colors(s, &mut crng);
+        }
     }
     let mut args: Vec<String> = vec!["--no-gitconfig".into(), "--width".into(), "120".into()];
     if mode >= SWARM {
